@@ -79,7 +79,23 @@ def gen_template(rng, paths):
     nots = {"t": "not", "s": _path_sel(rng, p)}
     pre = _path_sel(rng, prefix)
     q = rng.choice(paths)
-    kind = rng.choice(["not_and_prefix", "prefix_and_not", "not_or_other", "not_not", "demorgan_and", "demorgan_or", "not_alone"])
+    kind = rng.choice(["not_and_prefix", "prefix_and_not", "not_or_other", "not_not", "demorgan_and", "demorgan_or", "not_alone",
+                       "dict_op_dict", "dict_op_dict"])
+    if kind == "dict_op_dict":
+        # two dict selections that share a key and delegate to different sub-selections under it
+        same = [x for x in deep if x[0] == p[0]]
+        q2 = rng.choice(same)
+
+        def under(x):
+            inner = _path_sel(rng, x[1:]) if len(x) > 1 and rng.random() < 0.8 else {"t": "all"}
+            d = {x[0]: inner}
+            if rng.random() < 0.3:
+                o = rng.choice(paths)
+                if o[0] != x[0]:
+                    d[o[0]] = {"t": "all"}
+            return {"t": "dict", "d": d}
+
+        return {"t": rng.choice(["or", "or", "and"]), "l": under(p), "r": under(q2)}
     if kind == "not_and_prefix":
         return {"t": "and", "l": nots, "r": pre}
     if kind == "prefix_and_not":
